@@ -129,7 +129,7 @@ var ModeNames = []string{"plain", "expensive", "batch", "batch+fallback(on)", "b
 func (m Mode) String() string { return ModeNames[m] }
 
 // Modes assigns a mode to each configurable field: User.items, User.friend,
-// User.score, Item.owner, User.fav.
+// User.score, Item.owner, User.fav, User.ack (a resolver that returns only an error).
 type Modes map[string]Mode
 
 // Hooks let harnesses observe or perturb resolvers.
@@ -172,6 +172,48 @@ func register[S any, R any](obj *schemabuilder.Object, name string, mode Mode, h
 			out[i] = one(s)
 		}
 		return out, nil
+	}
+	switch mode {
+	case Plain:
+		obj.FieldFunc(name, single)
+	case Expensive:
+		obj.FieldFunc(name, single, schemabuilder.Expensive)
+	case PlainPar2:
+		obj.FieldFunc(name, single, par(2))
+	case Batch:
+		obj.BatchFieldFunc(name, many)
+	case BatchFallbackOn:
+		obj.BatchFieldFuncWithFallback(name, many, single, func(context.Context) bool { return true })
+	case BatchFallbackOff:
+		obj.BatchFieldFuncWithFallback(name, many, single, func(context.Context) bool { return false })
+	case Par1:
+		obj.BatchFieldFunc(name, many, par(1))
+	case Par2:
+		obj.BatchFieldFunc(name, many, par(2))
+	case Par3:
+		obj.BatchFieldFunc(name, many, par(3))
+	default:
+		panic("bad mode")
+	}
+}
+
+// registerErrOnly adds field `name` whose resolver returns nothing but an error (the field's value is then `true`),
+// in the given mode.
+func registerErrOnly[S any](obj *schemabuilder.Object, name string, mode Mode, h *Hooks, key func(S) int64) {
+	before := func(ctx context.Context, keys []int64) error {
+		if h != nil && h.Before != nil {
+			return h.Before(ctx, name, keys)
+		}
+		return nil
+	}
+	single := func(ctx context.Context, s S) error { return before(ctx, []int64{key(s)}) }
+	many := func(ctx context.Context, ss map[batch.Index]S) error {
+		keys := make([]int64, 0, len(ss))
+		for _, s := range ss {
+			keys = append(keys, key(s))
+		}
+		sort.Slice(keys, func(i, j int) bool { return keys[i] < keys[j] })
+		return before(ctx, keys)
 	}
 	switch mode {
 	case Plain:
@@ -242,6 +284,7 @@ func Build(d *Data, modes Modes, h *Hooks) *graphql.Schema {
 	}
 	register(user, "score", scoreMode, h, func(u *User) int64 { return u.Id }, func(u *User) int64 { return d.Score(u) })
 	register(user, "fav", modes["fav"], h, func(u *User) int64 { return u.Id }, func(u *User) *Thing { return d.Fav(u) })
+	registerErrOnly(user, "ack", modes["ack"], h, func(u *User) int64 { return u.Id })
 	user.FieldFunc("best", func(u *User) *Item {
 		if its := d.ItemsOf(u); len(its) > 0 {
 			return its[0]
